@@ -83,7 +83,8 @@ def read_client_conf():
         with open(path) as f:
             # Every line is a key of its own however it is indented
             # (ConfigParser reads an indented line as the continuation of the value before it)
-            text += ''.join(line.lstrip(' \t') for line in f)
+            # (any white-space counts as indentation there, not only blanks and tabs)
+            text += ''.join(line.lstrip() or '\n' for line in f)
         parser.read_string(text)
         for key in ret.keys():
             try:
